@@ -1032,4 +1032,92 @@ Proof.
 Qed.
 End RemoveCmd.
 
+(* ------------------------------------------------------------------ mkdirs *)
+Section MkdirsCmd.
+Variables (f0 : fsT) (a : bytes).
+Hypothesis Hc0 : fs_clean f0.
+Hypothesis Hn0 : nolink f0.
+
+Definition PMk (v : option bytes) : Prop := v = cfgbase f0 a.
+Definition MkFacts : Prop := plain a /\ legal_name a = true /\ hasdir a f0 /\ G f0 a = cfgbase f0 a.
+Definition IvMk (w : world) : Prop := w_fs w = f0 \/ (MkFacts /\ Inv1 [a] f0 f0 a PMk w).
+
+Lemma mk_inv_of w : MkFacts -> IvMk w -> Inv1 [a] f0 f0 a PMk w.
+Proof.
+  intros HF [E|[_ H]]; [|exact H]. unfold Inv1. rewrite E. split; [now apply IB_refl|]. split; [reflexivity|].
+  split; [auto|]. intros j _ _. split; auto.
+Qed.
+Lemma mk_mkdir_step e p r : MkFacts -> p = pa (Lc ++ a :: r) -> plains r ->
+  hs IvMk false (fs_mkdir e p) (fun _ => True).
+Proof.
+  intros HF -> Pr. unfold fs_mkdir. apply hs_true, hoare_do_op. intros w w' HI _ E. right. split; [exact HF|].
+  pose proof HF as (Pn & _). eapply (inv_mkdir [a] f0 f0 a PMk Pn (or_introl eq_refl) w w' r); eauto.
+  now apply mk_inv_of.
+Qed.
+Lemma mk_final w : IvMk w -> gforest (G f0) -> gforest (G (w_fs w)).
+Proof.
+  intros [->|((Pn & Ln & Hd & Hg) & (HI & HP & HD & _))] HG; [exact HG|].
+  apply (gforest_ext (G f0)); [|exact HG]. intros x. destruct (beq a x) eqn:Ex.
+  - apply beq_true in Ex. subst x. destruct (HD Hd) as (m0 & Hm0).
+    rewrite (G_of_cfgbase (w_fs w) a m0 (ib_clean _ _ _ HI) (ib_nolink _ _ _ HI) Pn Ln Hm0). congruence.
+  - apply beq_false in Ex. symmetry. apply (G_out [a]); auto.
+    + apply (ib_clean _ _ _ HI).
+    + apply (ib_nolink _ _ _ HI).
+    + apply (ib_part _ _ _ HI).
+    + intros y [<-|[]]. exact Pn.
+    + intros [E|[]]. congruence.
+Qed.
+Lemma makedirs_keeps e ld :
+  LDI (skel (read_layer_files c f0)) ld -> paths_ok c (ld_map ld) ->
+  hs IvMk false (makedirs e c ld a) (fun _ => True).
+Proof.
+  intros [Hs HW] HPa. unfold makedirs.
+  apply hs_guard_k. intros G1. apply test_name_need in G1 as (Ha & La & l & El). rewrite El.
+  apply hs_guard_k. intros _. destruct (l_state l <? st_complete)%N; [|now apply hs_ret].
+  assert (Hg : forall x, g_of (ld_map ld) x = G f0 x) by (intros x; now apply skel_g).
+  pose proof (lm_get_name _ _ _ El) as Ena. pose proof (lm_get_in _ _ _ El) as Hin.
+  assert (Hga : G f0 a = Some (l_base l)) by (rewrite <- Hg; apply g_of_some; eauto).
+  destruct (G_some_child f0 a _ Hc0 Hn0 Hga) as (Pa & _ & Hd & Hcb).
+  assert (HF : MkFacts) by (split; [exact Pa|split; [exact La|split; [exact Hd|congruence]]]).
+  assert (Ep : l_path l = layer_path c a) by (rewrite (HPa l Hin); now rewrite Ena).
+  apply hs_get_fs_k. intros f. cbv zeta. apply hs_seq; [|apply hs_get_fs_k; intros f'; now apply hs_ret].
+  apply hs_mapM_. intros p Hp. apply filter_In in Hp as [Hp _].
+  destruct Hbsr as (B1 & _). destruct Hwsr as (W1 & _). destruct Husr as (U1 & _).
+  apply in_app_or in Hp as [[<-|[]]|Hp].
+  - apply (mk_mkdir_step e _ bsr); [exact HF|now apply build_path_eq|exact B1].
+  - destruct (l_base l); [destruct Hp|]. destruct Hp as [<-|[<-|[]]].
+    + apply (mk_mkdir_step e _ wsr); [exact HF|now apply work_path_eq|exact W1].
+    + apply (mk_mkdir_step e _ usr); [exact HF|now apply upper_path_eq|exact U1].
+Qed.
+End MkdirsCmd.
+
+(* ------------------------------------------------------------------ commands that leave the file tree alone *)
+Definition SameFs (f0 : fsT) : wpred := fun w => w_fs w = f0.
+
+Lemma refresh_any (Iv : wpred) cc sk ld : LDI sk ld ->
+  hs Iv false (refresh_mounts cc ld) (fun ld' => LDI sk ld' /\ ld_order ld' = ld_order ld).
+Proof.
+  intros H s HI _. rewrite refresh_eq. destruct (probe_of (w_ks (s_w s))) as [|ms ds]; [exact HI|].
+  split; [exact HI|]. split; [now apply refresh_LDI|reflexivity].
+Qed.
+Lemma mntop_samefs f0 e o : mntopP o -> hoare (SameFs f0) false ptrue (do_op e o) (fun _ => ptrue).
+Proof.
+  intros H. apply hoare_do_op. intros w w' HI _ E. unfold SameFs in *.
+  destruct o; cbn in H; try contradiction; cbn [op_result] in E.
+  - destruct (kmount _ _ _ _ _ _ _); [|discriminate]. injection E as <-. exact HI.
+  - destruct (kumount _ _ _); [|discriminate]. injection E as <-. exact HI.
+Qed.
+
+(* pretend mode: no operation is carried out *)
+Section Pretend.
+Variables (f0 : fsT) (e : env).
+Hypothesis Hp : e_pretend e = true.
+Lemma pretend_op o : hoare (SameFs f0) false ptrue (do_op e o) (fun _ => ptrue).
+Proof. intros s HI _. unfold do_op. rewrite mutate_pretend by exact Hp. split; [exact HI|exact I]. Qed.
+Lemma pretend_wt p x : hoare (SameFs f0) false ptrue (fs_write_text e p x) (fun _ => ptrue).
+Proof. intros s HI _. unfold fs_write_text. rewrite mutate_pretend by exact Hp. split; [exact HI|exact I]. Qed.
+Lemma pretend_wa p ch : hoare (SameFs f0) false ptrue (write_file_atomically e p ch) (fun _ => ptrue).
+Proof. intros s HI _. rewrite write_atomically_pretend by exact Hp. split; [exact HI|exact I]. Qed.
+End Pretend.
+
 End WithCfg.
